@@ -467,6 +467,7 @@ namespace xtl
         void update_null_termination() noexcept;
         void check_index(size_type pos, size_type size, const char* what) const;
         void check_index_strict(size_type pos, size_type size, const char* what) const;
+        bool is_inside(const_pointer s) const noexcept;
 
         storage_type m_storage;
     };
@@ -1227,6 +1228,12 @@ namespace xtl
     auto xbasic_fixed_string<CT, N, ST, EP, TR>::insert(size_type index, const_pointer s, size_type count) -> self_type&
     {
         check_index_strict(index, size(), "xbasic_fixed_string::insert");
+        if (is_inside(s))
+        {
+            // the source is (a part of) this string: shifting the tail would overwrite it
+            const string_type tmp(s, count);
+            return insert(index, tmp.data(), count);
+        }
         size_type old_size = size();
         m_storage.set_size(error_policy::check_add(size(), count));
         std::copy_backward(data() + index, data() + old_size, data() + old_size + count);
@@ -1563,6 +1570,12 @@ namespace xtl
                                                      const_pointer cstr, size_type count2) -> self_type&
     {
         check_index_strict(pos, size(), "xbasic_fixed_string::replace");
+        if (is_inside(cstr))
+        {
+            // the source is (a part of) this string: moving the tail would overwrite it
+            const string_type tmp(cstr, count2);
+            return replace(pos, count, tmp.data(), count2);
+        }
         size_type erase_count = std::min(count, size() - pos);
         size_type new_size = error_policy::check_add(size() - erase_count, count2);
         if (erase_count > count2)
@@ -2027,6 +2040,12 @@ namespace xtl
     void xbasic_fixed_string<CT, N, ST, EP, TR>::check_index_strict(size_type pos, size_type size, const char* what) const
     {
         check_index(pos, size + 1, what);
+    }
+
+    template <class CT, std::size_t N, int ST, template <std::size_t> class EP, class TR>
+    inline bool xbasic_fixed_string<CT, N, ST, EP, TR>::is_inside(const_pointer s) const noexcept
+    {
+        return !std::less<const_pointer>()(s, data()) && !std::less<const_pointer>()(data() + N, s);
     }
 
     /**************************
